@@ -249,17 +249,23 @@ func cmd1(c *Ctx) {
 			// error text before the policy, on this source's path
 			okWrite := false
 			for _, w := range writes {
-				dep := false
+				dep, depPhi := false, false
 				for _, a := range w.args {
 					if ir.DependsOn(a, s.err) {
 						dep = true
 					}
+					if s.pred != nil && ir.DependsOn(a, v) {
+						depPhi = true
+					}
 				}
-				if !dep {
+				if !dep && !depPhi {
 					continue
 				}
 				onPath := false
-				if s.pred != nil {
+				if s.pred != nil && depPhi {
+					// written after the join, from the merged error value itself
+					onPath = ir.MustPassBefore(anchor, func(in ssa.Instruction) bool { return in == ssa.Instruction(w.call) })
+				} else if s.pred != nil {
 					onPath = w.call.Block() == s.pred || w.call.Block().Dominates(s.pred)
 				} else {
 					onPath = ir.MustPassBefore(anchor, func(in ssa.Instruction) bool { return in == ssa.Instruction(w.call) })
@@ -822,11 +828,11 @@ func cmd4(c *Ctx) {
 			continue
 		}
 		sawIdx = true
-		// dominated by tok == <elem of {"-h","--help"}>
-		good := false
+		// every way into this return must cross the true edge of a comparison of the token with -h or --help
+		cut := map[ir.Edge]bool{}
 		ir.Instrs(fn, func(in ssa.Instruction) {
 			bo, ok := in.(*ssa.BinOp)
-			if !ok || bo.Op != token.EQL || !ir.HoldsAt(bo, true, r.Block()) {
+			if !ok || bo.Op != token.EQL {
 				return
 			}
 			var other ssa.Value
@@ -838,19 +844,23 @@ func cmd4(c *Ctx) {
 			if other == nil {
 				return
 			}
+			okSet := false
 			if s, isS := ir.ConstString(other); isS && (s == "-h" || s == "--help") {
-				good = true
-				return
-			}
-			if sl, isR := rangeElem(other); isR {
+				okSet = true
+			} else if sl, isR := rangeElem(other); isR {
 				elems := sliceLitStrings(sl)
 				sort.Strings(elems)
 				if len(elems) == 2 && elems[0] == "--help" && elems[1] == "-h" {
-					good = true
+					okSet = true
+				}
+			}
+			if okSet {
+				for _, e := range ir.EdgesWhere(fn, bo, true) {
+					cut[ir.Edge{From: e.From, To: e.To}] = true
 				}
 			}
 		})
-		if !good {
+		if len(cut) == 0 || r.Block() == entry || ir.Reach(entry, nil, cut)[r.Block()] {
 			okIdx, why = false, "an index is returned for a token that is not compared with exactly {-h, --help}"
 		}
 	}
@@ -1487,6 +1497,14 @@ func cmd7(c *Ctx) {
 		}
 	}
 	for _, r := range ir.Returns(fn) {
+		if lc, isCall := r.Results[0].(*ssa.Call); isCall && hdr.Succs[1] != nil {
+			if bi, isB := lc.Call.Value.(*ssa.Builtin); isB && bi.Name() == "len" && lc.Call.Args[0] == ssa.Value(args) {
+				// after the scan is exhausted the count is len(args)
+				if r.Block() == hdr.Succs[1] || ir.EdgeDominates(hdr, hdr.Succs[1], r.Block()) {
+					continue
+				}
+			}
+		}
 		if !retIsCount(r.Results[0]) {
 			problems = append(problems, fmt.Sprintf("the return at %s is not the number of tokens scanned so far", c.P.Pos(r.Pos())))
 			continue
@@ -1759,6 +1777,28 @@ func cmd10(c *Ctx) {
 		return found
 	}
 	sawOptions, sawArgs := false, false
+	optionsGuardAt := func(b *ssa.BasicBlock, want bool) bool {
+		found := false
+		ir.Instrs(fn, func(in2 ssa.Instruction) {
+			bo, ok := in2.(*ssa.BinOp)
+			if !ok {
+				return
+			}
+			if z, isC := ir.ConstInt(bo.Y); isC && z == 0 && (bo.Op == token.GTR || bo.Op == token.NEQ) {
+				if lc, isCall := bo.X.(*ssa.Call); isCall {
+					if bi, isB := lc.Call.Value.(*ssa.Builtin); isB && bi.Name() == "len" {
+						if b2, f, isF := ir.FieldLoad(lc.Call.Args[0]); isF && f == "options" && b2 == ssa.Value(recv) {
+							if ir.HoldsAt(bo, want, b) {
+								found = true
+							}
+							// the block that ends in this very test knows nothing yet; its false edge is handled by the caller
+						}
+					}
+				}
+			}
+		})
+		return found
+	}
 	ir.Instrs(fn, func(in ssa.Instruction) {
 		st, ok := in.(*ssa.Store)
 		if !ok {
@@ -1766,6 +1806,71 @@ func cmd10(c *Ctx) {
 		}
 		b, fld, isF := ir.FieldAddr(st.Addr)
 		if !isF || fld != "Spec" || b != ssa.Value(recv) {
+			return
+		}
+		// built in a local accumulator and stored once: spec := ""; if options {spec = "[OPTIONS] "}; for args {spec += name + " "}; c.Spec = spec
+		if acc, isPhi := st.Val.(*ssa.Phi); isPhi {
+			var problems []string
+			if !specEmptyAt(st.Block()) {
+				problems = append(problems, "the default spec is stored although a spec was given")
+			}
+			h := acc.Block()
+			var init ssa.Value
+			okLoop := false
+			for i, e := range acc.Edges {
+				if h.Dominates(h.Preds[i]) {
+					leaves := concatLeaves(e)
+					if len(leaves) == 3 && leaves[0] == ssa.Value(acc) {
+						if sp, isS := ir.ConstString(leaves[2]); isS && sp == " " {
+							if ab, af, isF2 := ir.FieldLoad(leaves[1]); isF2 && af == "Name" {
+								if sl, isR := rangeElem(ab); isR {
+									if lb, ok3 := fieldOf(sl, "args"); ok3 && lb == ssa.Value(recv) {
+										okLoop = true
+									}
+								}
+							}
+						}
+					}
+				} else {
+					init = e
+				}
+			}
+			if !okLoop {
+				problems = append(problems, "the accumulated text is not <argument name> + \" \" for each declared argument in list order")
+			}
+			// the loop must be the loop over c.args and the stored value its final accumulator
+			okInit := false
+			if ip, isP := init.(*ssa.Phi); isP && len(ip.Edges) == 2 {
+				var sawEmpty, sawOpt bool
+				for i, e := range ip.Edges {
+					sv, isS := ir.ConstString(e)
+					if !isS {
+						continue
+					}
+					pred := ip.Block().Preds[i]
+					switch sv {
+					case "[OPTIONS] ":
+						if optionsGuardAt(pred, true) {
+							sawOpt = true
+						}
+					case "":
+						// arrives directly from the test's false edge
+						sawEmpty = !optionsGuardAt(pred, true)
+					}
+				}
+				okInit = sawEmpty && sawOpt
+			}
+			if !okInit {
+				problems = append(problems, "the accumulator does not start as \"[OPTIONS] \" iff an option is declared (else empty)")
+			}
+			sawOptions, sawArgs = true, true
+			if len(problems) > 0 {
+				c.Bad(Q(fn)+":spec-options-part", st.Pos(), "%s", strings.Join(problems, "; "))
+				c.Bad(Q(fn)+":spec-args-part", st.Pos(), "%s", strings.Join(problems, "; "))
+			} else {
+				c.OK(Q(fn)+":spec-options-part", st.Pos(), "\"[OPTIONS] \" iff the spec is empty and an option is declared (built in a local accumulator)")
+				c.OK(Q(fn)+":spec-args-part", st.Pos(), "each declared argument's name and a blank are appended in declaration order, only when no spec was given (built in a local accumulator)")
+			}
 			return
 		}
 		if s, isS := ir.ConstString(st.Val); isS {
